@@ -235,10 +235,18 @@ def case_rewrite(case, ctx, rnd, mech, res):
     top = spec_a['circ']['name']
     fname = rnd.choice(['model_rw.yaml', 'model_rw.yml'])         # both spellings of the extension are accepted
     mech['rewrite_' + fname.rsplit('.', 1)[1]] = 1
+    writer = rnd.choice(['to_yaml', 'to_yaml', 'save'])               # template.to_yaml(path) or pyrates.save(template, path, filetype='yaml')
+    mech['rewrite_via_' + writer] = 1
     for tag, sp in (('first', spec_a), ('second', spec_b)):
         t_py, _ = build.build_python(sp)
         try:
-            t_py.to_yaml(fname)
+            if writer == 'save':
+                import contextlib, io
+                from pyrates import save
+                with contextlib.redirect_stdout(io.StringIO()):
+                    save(t_py, fname, filetype='yaml')
+            else:
+                t_py.to_yaml(fname)
             t_l = CircuitTemplate.from_yaml(f'{cwd}/model_rw/{top}')
         except Exception as e:
             res['spec'] = {'a': spec_a, 'b': spec_b}
